@@ -11,15 +11,21 @@ set_option linter.unusedSectionVars false
 
 variable {κ τ : Type} [DecidableEq κ] [DecidableEq τ]
 
-/-- every `runtests` in the log carries indices of tests of one group of `col` -/
+/-- `runtests` and `runtests_all` -/
+def isRun : SOut → Bool
+  | .run _ _ => true
+  | .runAll _ => true
+  | _ => false
+
+/-- every command in the log that hands out tests is a `runtests` carrying indices of tests of one group of `col` -/
 def RunsOk (split : τ → κ) (col : List τ) (outs : List SOut) : Prop :=
-  ∀ n is, SOut.run n is ∈ outs → ∃ scope, ∀ i ∈ is, ∃ t, col[i]? = some t ∧ split t = scope
+  ∀ o ∈ outs, isRun o = true → ∃ n is, o = SOut.run n is ∧ ∃ scope, ∀ i ∈ is, ∃ t, col[i]? = some t ∧ split t = scope
 
 theorem runsOk_mono {split : τ → κ} {col : List τ} {outs outs' : List SOut} (h : RunsOk split col outs)
-    (hs : ∀ n is, SOut.run n is ∈ outs' → SOut.run n is ∈ outs) : RunsOk split col outs' :=
-  fun n is hm => h n is (hs n is hm)
+    (hs : ∀ o ∈ outs', isRun o = true → o ∈ outs) : RunsOk split col outs' :=
+  fun o ho hr => h o (hs o ho hr) hr
 
-theorem shutdown_runs (e : Env) (k : Nat) (n : Nat) (is : List Nat) (h : SOut.run n is ∈ (e.shutdown k).outs) : SOut.run n is ∈ e.outs := by
+theorem shutdown_runs (e : Env) (k : Nat) (o : SOut) (h : o ∈ (e.shutdown k).outs) (hr : isRun o = true) : o ∈ e.outs := by
   unfold Env.shutdown at h
   simp only at h
   split at h
@@ -29,12 +35,13 @@ theorem shutdown_runs (e : Env) (k : Nat) (n : Nat) (is : List Nat) (h : SOut.ru
     · exact h
     · rcases List.mem_append.1 h with h | h
       · exact h
-      · simp at h
+      · simp only [List.mem_singleton] at h
+        subst h; cases hr
 
-theorem shutdownAll_runs (l : List Nat) : ∀ (e : Env) (n : Nat) (is : List Nat), SOut.run n is ∈ (e.shutdownAll l).outs → SOut.run n is ∈ e.outs := by
+theorem shutdownAll_runs (l : List Nat) : ∀ (e : Env) (o : SOut), o ∈ (e.shutdownAll l).outs → isRun o = true → o ∈ e.outs := by
   induction l with
-  | nil => intro e n is h; exact h
-  | cons k t ih => intro e n is h; exact shutdown_runs e k n is (ih _ n is h)
+  | nil => intro e o h _; exact h
+  | cons k t ih => intro e o h hr; exact shutdown_runs e k o (ih _ o h hr) hr
 
 theorem sendRun_outs {e e' : Env} {n : Nat} {is : List Nat} (h : e.sendRun n is = .ok e') :
     e'.outs = e.outs ∨ e'.outs = e.outs ++ [SOut.run n is] := by
@@ -52,7 +59,7 @@ structure T (split : τ → κ) (col : List τ) (s : State κ τ) (e : Env) : Pr
   cmp : collectionIsCompleted s = true
 
 theorem T.shutdown {split : τ → κ} {col : List τ} {s : State κ τ} {e : Env} (h : T split col s e) (k : Nat) : T split col s (e.shutdown k) :=
-  ⟨h.coll, h.hom, h.reg, runsOk_mono h.runs (fun n is hm => shutdown_runs e k n is hm), h.cmp⟩
+  ⟨h.coll, h.hom, h.reg, runsOk_mono h.runs (fun o ho hr => shutdown_runs e k o ho hr), h.cmp⟩
 
 theorem assignWorkUnit_T {split : τ → κ} {col : List τ} {s s' : State κ τ} {e e' : Env} {n : Nat}
     (h : assignWorkUnit s e n = .ok (s', e')) (ht : T split col s e) : T split col s' e' := by
@@ -71,15 +78,14 @@ theorem assignWorkUnit_T {split : τ → κ} {col : List τ} {s s' : State κ τ
     simp only [Except.ok.injEq, Prod.mk.injEq] at h
     obtain ⟨hs', _⟩ := h
     refine ⟨by rw [← hs']; exact ht.coll, hhom', by rw [← hs']; exact ht.reg, ?_, by rw [← hs']; exact ht.cmp⟩
-    intro m js hm
+    intro o hm hr
     rcases sendRun_outs hsend with ho | ho
-    · rw [ho] at hm; exact ht.runs m js hm
+    · rw [ho] at hm; exact ht.runs o hm hr
     · rw [ho] at hm
       rcases List.mem_append.1 hm with hm | hm
-      · exact ht.runs m js hm
-      · simp only [List.mem_singleton, SOut.run.injEq] at hm
-        obtain ⟨_, rfl⟩ := hm
-        exact ⟨scope, hone⟩
+      · exact ht.runs o hm hr
+      · simp only [List.mem_singleton] at hm
+        exact ⟨n, is, hm, scope, hone⟩
 
 theorem topUp_T {split : τ → κ} {col : List τ} {n : Nat} (fuel : Nat) : ∀ {s s' : State κ τ} {e e' : Env},
     topUp s e n fuel = .ok (s', e') → T split col s e → T split col s' e' := by
@@ -156,7 +162,7 @@ theorem dropExtra_T {split : τ → κ} {col : List τ} (k : Nat) : ∀ {s s' : 
     · cases h
     · rename_i n0 _ _
       refine ih h ⟨hi.coll, ⟨hi.hom.1, fun a ha => hi.hom.2 a (List.dropLast_subset _ ha)⟩, hi.reg, ?_, hi.cmp⟩
-      exact runsOk_mono hi.runs (fun n is hm => shutdown_runs e _ n is hm)
+      exact runsOk_mono hi.runs (fun o ho hr => shutdown_runs e _ o ho hr)
 
 /-! ### the invariant of every scheduler call -/
 
@@ -167,7 +173,7 @@ structure WI (split : τ → κ) (s : State κ τ) (e : Env) : Prop where
   hom : Hom split s
   di : DI s
   agreed : ∀ col, s.collection = some col → (∀ p ∈ s.registered, p.2 = col) ∧ RunsOk split col e.outs
-  quiet : s.collection = none → ∀ n is, SOut.run n is ∉ e.outs
+  quiet : s.collection = none → ∀ o ∈ e.outs, isRun o = false
   cmp : s.collection ≠ none → collectionIsCompleted s = true
 
 theorem WI.toT {split : τ → κ} {s : State κ τ} {e : Env} {col : List τ} (h : WI split s e) (hc : s.collection = some col) : T split col s e :=
@@ -277,12 +283,12 @@ theorem step_wi (split : τ → κ) {s s' : State κ τ} {e e' : Env} {op : SOp 
             · intro c hc
               have hc' : s.collection = some c := hc
               rw [hc0] at hc'; cases hc'
-            · intro _ n is hm
+            · intro _ o hm
               rcases List.mem_append.1 hm with hm | hm
-              · exact hi.quiet hc0 n is hm
+              · exact hi.quiet hc0 o hm
               · unfold collectionDiffs at hm
                 obtain ⟨p, _, hp⟩ := List.mem_map.1 hm
-                cases hp
+                rw [← hp]; rfl
           · rename_i hde
             have hdnil : collectionDiffs first col rest = [] := by simpa using hde
             have hregall : ∀ p ∈ s.registered, p.2 = col := by
@@ -295,9 +301,9 @@ theorem step_wi (split : τ → κ) {s s' : State κ τ} {e e' : Env} {op : SOp 
                 have := List.filter_eq_nil_iff.1 hf p hp
                 simpa using this
             have hq : RunsOk split col (e.outs ++ collectionDiffs first col rest) := by
-              intro n is hm
+              intro o hm hr
               rw [hdnil, List.append_nil] at hm
-              exact absurd hm (hi.quiet hc0 n is)
+              rw [hi.quiet hc0 o hm] at hr; cases hr
             split at h1
             · simp only [Except.ok.injEq, Prod.mk.injEq] at h1; obtain ⟨rfl, rfl⟩ := h1
               exact fromT (col := col) ⟨rfl, hi.hom, hregall, hq, hcmp'⟩
@@ -311,7 +317,7 @@ theorem step_wi (split : τ → κ) {s s' : State κ τ} {e e' : Env} {op : SOp 
               have t5 := rescheduleAll_T _ h5 (assignAll_T _ h4 (dropExtra_T _ h3 h2))
               split at h1
               · simp only [Except.ok.injEq, Prod.mk.injEq] at h1; obtain ⟨rfl, rfl⟩ := h1
-                exact fromT ⟨t5.coll, t5.hom, t5.reg, runsOk_mono t5.runs (fun n is hm => shutdownAll_runs _ _ n is hm), t5.cmp⟩
+                exact fromT ⟨t5.coll, t5.hom, t5.reg, runsOk_mono t5.runs (fun o ho hr => shutdownAll_runs _ _ o ho hr), t5.cmp⟩
               · simp only [Except.ok.injEq, Prod.mk.injEq] at h1; obtain ⟨rfl, rfl⟩ := h1
                 exact fromT t5
   | markComplete n i slow =>
